@@ -9,7 +9,9 @@
 //	op <flt> <kind>@<obo> ...    the request carries {"extra":{"obo":"<id of user obo>"}};
 //	                             obo = x: a string that is not a user id; obo = 0: "usr" (parses to the zero id)
 //
-// for the kinds sub, leave, pub, getdata, getdel, delmsg. Everything else is executed by the
+//	op <flt> subget[@<obo>] <s> <want|-> <bkg> <a:b:l|-> <a:b:l|->    {sub get="data del"} with the options of each part
+//
+// for the kinds sub, subget, leave, pub, getdata, getdel, delmsg. Everything else is executed by the
 // shared driver's vScn.op. The output blocks are the shared driver's.
 package main
 
@@ -45,6 +47,8 @@ func (sc *c04xScn) c04xReflag() {
 
 func (sc *c04xScn) c04xExtra(obo string) string {
 	switch obo {
+	case "":
+		return ""
 	case "x":
 		return `,"extra":{"obo":"nobody"}`
 	case "0":
@@ -60,6 +64,20 @@ func (sc *c04xScn) c04xExtra(obo string) string {
 }
 
 // one request with extra.obo; same framing as vScn.op
+// "a:b:l" -> the JSON of MsgGetOpts
+func c04xOpts(w string) string {
+	p := strings.Split(w, ":")
+	opts := map[string]int{}
+	for i, k := range []string{"since", "before", "limit"} {
+		if i < len(p) {
+			if v, _ := strconv.Atoi(p[i]); v != 0 {
+				opts[k] = v
+			}
+		}
+	}
+	return vJSON(opts)
+}
+
 func (sc *c04xScn) c04xOp(w []string, obo string) {
 	sc.opi++
 	fmt.Fprintf(sc.out, "op %d\n", sc.opi)
@@ -82,6 +100,24 @@ func (sc *c04xScn) c04xOp(w []string, obo string) {
 		}
 		sc.sess[at(0)].s.background = a[2] == "1"
 		sc.send(at(0), `{"sub":{"id":"`+id+`","topic":"`+tn+`"`+set+`}`+extra+`}`)
+	case "subget":
+		// subget <s> <want|-> <bkg> <since:before:limit|-> <since:before:limit|->   {sub get="data del"}
+		set := ""
+		if a[1] != "-" {
+			set = `,"set":{"sub":{"mode":` + vJSON(vHexStr(a[1])) + `}}`
+		}
+		sc.sess[at(0)].s.background = a[2] == "1"
+		var what []string
+		get := ""
+		if a[3] != "-" {
+			what = append(what, "data")
+			get += `,"data":` + c04xOpts(a[3])
+		}
+		if a[4] != "-" {
+			what = append(what, "del")
+			get += `,"del":` + c04xOpts(a[4])
+		}
+		sc.send(at(0), `{"sub":{"id":"`+id+`","topic":"`+tn+`"`+set+`,"get":{"what":"`+strings.Join(what, " ")+`"`+get+`}}`+extra+`}`)
 	case "leave":
 		unsub := ""
 		if a[1] == "1" {
@@ -229,7 +265,7 @@ func TestVerifC04Obo(t *testing.T) {
 			if i := strings.Index(kind, "@"); i >= 0 {
 				kind, obo = w[2][:i], w[2][i+1:]
 			}
-			if obo == "" {
+			if obo == "" && kind != "subget" {
 				sc.op(w[1:])
 			} else {
 				ww := append([]string{w[1], kind}, w[3:]...)
